@@ -432,33 +432,33 @@ Section Model.
   Definition radixsort_CE0 (fuel : nat) (mem : N) (d : nat) (l : list item) (lcp : list nat) : res :=
     if N.ltb (nN l) inssort_threshold then Some (insertion d l lcp) else
     let use := w64 (use_base l + nN l * sz_str sz) in
-    if mem_short mem (w64 (use + 3 * sz_ce0 sz + 1)) then mkqs fuel d mem l lcp
+    if mem_short mem (w64 (use + slack_ce0 * sz_ce0 sz + 1)) then mkqs fuel d mem l lcp
     else r8_step fuel false (sz_ce0 sz) (w64sub mem use) 1 d l lcp.
 
   Definition radixsort_CI2 (fuel : nat) (mem : N) (d : nat) (l : list item) (lcp : list nat) : res :=
     if N.ltb (nN l) inssort_threshold then Some (insertion d l lcp) else
     let use := w64 (use_base l + nN l * sz_u8 sz) in
-    if mem_short mem (w64 (use + 3 * sz_ci2 sz + 1)) then mkqs fuel d mem l lcp
+    if mem_short mem (w64 (use + slack_ci2 * sz_ci2 sz + 1)) then mkqs fuel d mem l lcp
     else r8_step fuel true (sz_ci2 sz) (w64sub mem use) 1 d l lcp.
 
   Definition radixsort_CI3 (fuel : nat) (mem : N) (d : nat) (l : list item) (lcp : list nat) : res :=
     if N.ltb (nN l) inssort_threshold then Some (insertion d l lcp) else
     if N.ltb (nN l) radix16 then radixsort_CI2 fuel mem d l lcp else
     let use := w64 (use_base l + nN l * sz_u16 sz) in
-    if mem_short mem (w64 (use + 3 * sz_ci3 sz + 1)) then radixsort_CI2 fuel mem d l lcp
+    if mem_short mem (w64 (use + slack_ci3 * sz_ci3 sz + 1)) then radixsort_CI2 fuel mem d l lcp
     else r16_step fuel true (w64sub mem use) 1 d l lcp.
 
   Definition radixsort_CE2 (fuel : nat) (mem : N) (d : nat) (l : list item) (lcp : list nat) : res :=
     if N.ltb (nN l) inssort_threshold then Some (insertion d l lcp) else
     let use := w64 (use_base l + nN l * sz_u8 sz + nN l * sz_str sz) in
-    if mem_short mem (w64 (use + 3 * sz_ce2 sz + 1)) then radixsort_CI3 fuel mem d l lcp
+    if mem_short mem (w64 (use + slack_ce2 * sz_ce2 sz + 1)) then radixsort_CI3 fuel mem d l lcp
     else r8_step fuel false (sz_ce2 sz) (w64sub mem use) 1 d l lcp.
 
   Definition radixsort_CE3 (fuel : nat) (mem : N) (d : nat) (l : list item) (lcp : list nat) : res :=
     if N.ltb (nN l) inssort_threshold then Some (insertion d l lcp) else
     if N.ltb (nN l) radix16 then radixsort_CE2 fuel mem d l lcp else
     let use := w64 (use_base l + nN l * sz_u16 sz + nN l * sz_str sz) in
-    if mem_short mem (w64 (use + 3 * sz_ce3 sz + 1)) then radixsort_CE2 fuel mem d l lcp
+    if mem_short mem (w64 (use + slack_ce3 * sz_ce3 sz + 1)) then radixsort_CE2 fuel mem d l lcp
     else r16_step fuel false (w64sub mem use) 1 d l lcp.
 
   (** tlx::sort_strings / tlx::sort_strings_lcp (strings.hpp): radixsort_CE3 at depth 0 *)
